@@ -270,6 +270,28 @@ def run(tier):
                 rep.check(not bad, "forward-provenance", "%s -> %s" % (short(f.key), ck.split("::")[-1]),
                           "an event handed to the receiver does not come from next_event_impl (fabricated, replaced or reordered)",
                           site=site(f, t["sp"]), detail=[cfg.expr_str(b) if isinstance(b, tuple) else str(b) for b in bad])
+    # the walkers of the push interface make no errors of their own: whatever error `load` returns while walking a node is the error the
+    # iterator returns at the same event (an Err of load_node / load_mapping / load_sequence is always the propagated residual of a fetch or of
+    # a nested walker).  A depth limit, a size limit or any other local `return Err(..)` in a walker ends the push story where the pull story goes on.
+    n_w = 0
+    for f in loaders:
+        if f.key in (P + "::load", P + "::load_document"):
+            continue   # their two local errors ("did not find expected <stream-start> / <document-start>") guard the shape of the sentence itself
+        n_w += 1
+        made = []
+        for bi, b in enumerate(f.blocks):
+            if b["cleanup"]:
+                continue
+            for s_ in b["stmts"]:
+                rv = s_.get("rv") or {}
+                if s_["k"] == "assign" and rv.get("k") == "agg" and rv.get("agg") == "adt" and str(rv.get("adt", "")).endswith("result::Result") and rv.get("variant") == "Err":
+                    made.append("Err(..) in bb%d" % bi)
+            t = b["term"]
+            if t["k"] == "call" and "ScanError::new" in ((t["f"].get("fn") or {}).get("key", "")):
+                made.append("%s in bb%d" % (t["f"]["fn"]["key"].split("::")[-1], bi))
+        rep.check(not made, "walker-makes-no-errors", short(f.key), "a walker of the push interface builds an error of its own (%s): Parser::load stops with an error "
+                  "where the iterator returns the next event" % ", ".join(made), site=f.span)
+    rep.floor("walkers of the push interface", n_w, 3)
     rep.floor("event fetch sites in the push interface", n_fetch, 6)
     rep.floor("event forward sites in the push interface", n_fwd, 9)
 
